@@ -400,7 +400,8 @@ def lab_run(task, spec, args):
     if fault_kind == 'near_type':
         # a value of a type that is NOT the declared one but that the storage format could write all the same
         return {'int': 3.5, 'str': ['not', 'a', 'string'], 'json_dict': ['a', 'list'], 'json_list': {'a': 'mapping'}, 'numpy': [1, 2, 3],
-                'pandas': {'not': 'a frame'}}.get(kind, Unserializable())
+                'pandas': {'not': 'a frame'},
+                'generator': {'a': 'mapping', 'not': 'a generator'}, 'empty_gen': 'text'}.get(kind, Unserializable())
     value = encode(kind, h)
     if fault_kind == 'unserializable' and kind in ('json_dict', 'json_list'):
         value = {'prov': h, 'bad': Unserializable()} if kind == 'json_dict' else ['prov', h, Unserializable()]
